@@ -2,4 +2,4 @@ From Coq Require Import ExtrOcamlBasic.
 From GS Require Import Num Loops Krigesum_gen C05_Model.
 Extraction "c05_model.ml" proto_anchor
   krige_matrix cond_err_vec rhs_matrix krige_cond krige_raw krige_raw_field krige_call krige_call_field get_mean mean_raw
-  norm_fwd norm_bwd clip_var post_field grid chunk_targets ceil_div cwr drift_selects monomial poly_drifts.
+  norm_fwd norm_bwd clip_var post_field grid chunk_targets ceil_div cwr drift_selects monomial poly_drifts set_cond_err.
